@@ -364,3 +364,63 @@ Proof.
   - clear - L. revert b L. induction (w_local w) as [|x l IH]; intros [|b] L; cbn in *; try discriminate; auto.
   - unfold acks_hold in A. now rewrite E in A.
 Qed.
+
+(* ---------- WatchDeliver: once every broker's refresh has run after the last write,
+   every broker's copy is the etcd snapshot ---------- *)
+Lemma nth_error_set_nth_eq {A} (l : list A) i x y :
+  nth_error l i = Some y -> nth_error (set_nth l i x) i = Some x.
+Proof.
+  revert i; induction l as [|a l IH]; intros [|i] H; cbn in *; try discriminate; auto.
+Qed.
+
+Lemma nth_error_set_nth_neq {A} (l : list A) i j x : i <> j -> nth_error (set_nth l i x) j = nth_error l j.
+Proof.
+  revert i j; induction l as [|a l IH]; intros [|i] [|j] H; cbn; auto; try congruence.
+Qed.
+
+Lemma set_nth_length {A} (l : list A) i x : length (set_nth l i x) = length l.
+Proof. revert i; induction l as [|a l IH]; intros [|i]; cbn; auto. Qed.
+
+Lemma refreshes_run bs : forall w s,
+  w_etcd w = Some s -> (forall b, In b bs -> (b < length (w_local w))%nat) ->
+  exists w', run true w (map BRefresh bs) = Some w' /\
+    w_etcd w' = Some s /\ w_acks w' = w_acks w /\ length (w_local w') = length (w_local w) /\
+    (forall b loc, nth_error (w_local w') b = Some loc ->
+        (In b bs -> loc = s) /\ (~ In b bs -> nth_error (w_local w) b = Some loc)).
+Proof.
+  induction bs as [|b bs IH]; intros w s E Hb; cbn [map run].
+  - exists w. repeat split; auto. intros [].
+  - cbn [step]. destruct (nth_error (w_local w) b) as [lb|] eqn:L.
+    2:{ apply nth_error_None in L. specialize (Hb b (or_introl eq_refl)). lia. }
+    rewrite E.
+    set (w1 := mkWorld (Some s) (w_rev w) (set_nth (w_local w) b s) (w_pgrow w) (w_op w) (w_acks w)).
+    destruct (IH w1 s) as [w' [R [E' [A' [Len H]]]]].
+    + reflexivity.
+    + intros b' Hi. cbn [w1 w_local]. rewrite set_nth_length. apply Hb. now right.
+    + exists w'. split; [exact R|]. split; [exact E'|]. split; [exact A'|].
+      split; [rewrite Len; cbn [w1 w_local]; apply set_nth_length|].
+      intros b' loc Hn. destruct (H b' loc Hn) as [H1 H2]. split.
+      * intros [->|Hi]; [|now apply H1].
+        destruct (in_dec Nat.eq_dec b' bs) as [i|n]; [now apply H1|].
+        specialize (H2 n). cbn [w1 w_local] in H2.
+        rewrite (nth_error_set_nth_eq _ _ _ _ L) in H2. congruence.
+      * intros Hn'. assert (b <> b') by (intros ->; apply Hn'; now left).
+        assert (~ In b' bs) as Hn2 by (intros Hi; apply Hn'; now right).
+        specialize (H2 Hn2). cbn [w1 w_local] in H2. now rewrite nth_error_set_nth_neq in H2.
+Qed.
+
+Theorem watch_deliver_quiesces w s :
+  acks_hold w -> w_etcd w = Some s ->
+  exists w', run true w (deliver_all (length (w_local w))) = Some w' /\
+    quiesced w' /\ w_etcd w' = Some s /\
+    (forall b loc, nth_error (w_local w') b = Some loc -> covers loc (w_acks w')).
+Proof.
+  intros A E. destruct (refreshes_run (seq 0 (length (w_local w))) w s E) as [w' [R [E' [A' [Len H]]]]].
+  - intros b Hi. apply in_seq in Hi. lia.
+  - exists w'. split; [exact R|].
+    assert (forall b loc, nth_error (w_local w') b = Some loc -> loc = s) as Q.
+    { intros b loc Hn. apply (H b loc Hn). apply in_seq.
+      assert (b < length (w_local w'))%nat by (apply nth_error_Some; congruence). lia. }
+    split; [unfold quiesced; rewrite E'; exact Q|]. split; [exact E'|].
+    intros b loc Hn. rewrite (Q b loc Hn), A'. unfold acks_hold in A. now rewrite E in A.
+Qed.
